@@ -40,38 +40,44 @@ theorem reach_states (c : Codec) (cs : Nat) (h : Reach c cs) : cs ∈ states :=
   statesOf_sub c cs (reach_statesOf c cs h)
 
 /-- In a reachable state, an out-of-order call has exactly one outcome: `#bad call sequence`, with
-`call_sequence` unchanged; an in-order call is never answered with `#bad call sequence`.
-(`tell_me_more` of a decoder without the metadata side-track is the exception: see
-`tmm_without_metadata`.) -/
-theorem states_reject (c : Codec) : ∀ s ∈ statesOf c, ∀ m : Meth, (c.hasMetadata = true ∨ m ≠ .tmm) →
+`call_sequence` unchanged; an in-order call is never answered with `#bad call sequence`. Every codec,
+every method (since fixes/C08-tmm-bad-call-sequence.patch also `tell_me_more` of the decoders without
+the metadata side-track, see `tmm_without_metadata`). -/
+theorem states_reject (c : Codec) : ∀ s ∈ statesOf c, ∀ m : Meth,
     (inOrder s m = false → next c s m = [(.bcs, s)]) ∧
     (inOrder s m = true → ∀ o ∈ next c s m, o.1 ≠ .bcs) := by
   intro s hs m
   cases c <;> cases m <;> revert s <;> decide
 
-/-- The decoders without metadata (bmp, jpeg, nie, …) answer EVERY `tell_me_more`, in every state,
-with an error and leave `call_sequence` alone: the call is rejected (and, `tell_me_more` being a
-coroutine, the object is disabled), but with `"#no more information"` rather than the
-`"#bad call sequence"` that doc/std/image-decoders-call-sequence.md promises for "a TMM call … unless
-the decoder is in a right hand column state" (KNOWN_FINDINGS.txt, key
-`callseq:tmm-without-metadata:no-more-information`). -/
+/-- The decoders without metadata (bmp, jpeg, nie, …) answer EVERY `tell_me_more`, for every value of
+`call_sequence`, with `"#bad call sequence"` and leave `call_sequence` alone — what
+doc/std/image-decoders-call-sequence.md promises for "a TMM call … unless the decoder is in a right
+hand column state", a state these decoders never enter (`tmm_never_in_order`). This describes the code
+as repaired by fixes/C08-tmm-bad-call-sequence.patch; before it they answered `"#no more information"`
+(KNOWN_FINDINGS.txt, key `callseq:tmm-without-metadata:no-more-information`, now `fixed:`). -/
 theorem tmm_without_metadata (c : Codec) (h : c.hasMetadata = false) (cs : Nat) :
-    next c cs .tmm = [(.err, cs)] := by
+    next c cs .tmm = [(.bcs, cs)] := by
   cases c <;> simp_all [Codec.hasMetadata, next, finish, tmmInner]
+
+/-- … and on these decoders no history reaches a state in which `tell_me_more` would be in order. -/
+theorem tmm_never_in_order (c : Codec) (h : c.hasMetadata = false) (cs : Nat) (hr : Reach c cs) :
+    inOrder cs .tmm = false := by
+  have hs := reach_statesOf c cs hr
+  clear hr
+  revert cs
+  cases c <;> simp_all [Codec.hasMetadata] <;> decide
 
 /-- **call_sequence_ok (rejection).** Along every history, every out-of-order call (DIC after
 anything was decoded, TMM without pending metadata, RF before the image configuration, DFC/DF while
 metadata is pending) is rejected with `#bad call sequence` and leaves the state alone. -/
 theorem call_sequence_rejects (c : Codec) (cs : Nat) (h : Reach c cs) (m : Meth)
-    (hm : c.hasMetadata = true ∨ m ≠ .tmm)
     (hout : inOrder cs m = false) : next c cs m = [(.bcs, cs)] :=
-  (states_reject c cs (reach_statesOf c cs h) m hm).1 hout
+  (states_reject c cs (reach_statesOf c cs h) m).1 hout
 
 /-- … and an in-order call is never rejected that way. -/
 theorem call_sequence_accepts (c : Codec) (cs : Nat) (h : Reach c cs) (m : Meth)
-    (hm : c.hasMetadata = true ∨ m ≠ .tmm)
     (hin : inOrder cs m = true) : ∀ o ∈ next c cs m, o.1 ≠ .bcs :=
-  (states_reject c cs (reach_statesOf c cs h) m hm).2 hin
+  (states_reject c cs (reach_statesOf c cs h) m).2 hin
 
 /-- **call_sequence_ok (never stuck), part 1.** Every call has an outcome in every state — also in
 values of `call_sequence` no history reaches. -/
